@@ -6,6 +6,11 @@
 // packet to the real SessionManager.HandlePacket, exactly as adapter.connectionReadLoop does.
 // Each call runs alone (one goroutine at a time) under recover(), a wall-clock watchdog and a
 // runtime.MemStats.TotalAlloc delta; the judge is spec/FramingTrace.tla.
+// Histories generated from spec/FramingRes.tla (what one call leaves behind for the next: buffer pool,
+// read lock, request / connection tables) are driven as streams: several frames on one or two successive
+// connections, the ReadPacket calls made by two goroutines that keep their P (reader-thread switches between
+// packets), the three holders of the read lock called at the end of every stream, and as floods (N copies of
+// a frame on one connection / on N connections) whose retained memory is measured.
 package main
 
 import (
@@ -53,6 +58,7 @@ const maxBody = 16 * 1024 * 1024
 
 type srv struct {
 	sm     *session.SessionManager
+	reg    *command.CommandRegistry
 	cancel context.CancelFunc
 }
 
@@ -109,7 +115,7 @@ func newServer() (*srv, error) {
 			return nil, err
 		}
 	}
-	return &srv{sm: sm, cancel: cancel}, nil
+	return &srv{sm: sm, reg: reg, cancel: cancel}, nil
 }
 
 var (
@@ -149,13 +155,20 @@ type frame struct {
 	Gz  string `json:"gz"`
 	Pay string `json:"pay"`
 	Raw string `json:"raw,omitempty"` // pay = "short": the body content in hex (else picked seeded from shortBodies)
-	Sub string `json:"sub,omitempty"` // streams: "tiny" (tens of bytes on the wire) | "mid" (2-4 KiB on the wire)
+	Sub string `json:"sub,omitempty"` // streams: body size ON THE WIRE: "zero" | "nano" (1-3 bytes) | "tiny" (tens of bytes) | "mid" (2-4 KiB) | "big" (4.1-5.5 KiB) | "big2" (7-8 KiB)
 	Cmd int    `json:"cmd,omitempty"` // command kinds, pay = "good": command type to use (0: seeded)
+	H   string `json:"h,omitempty"`   // command kinds, pay = "good" (FramingRes): handler class "duplex" | "none" | "session" - a command type of that class is picked (seeded)
 }
 
 // streamClass names a frame inside a multi-frame stream.
 func (f *frame) streamClass() string {
 	s := fmt.Sprintf("k=%s:z=%v:e=%v:gz=%s:pay=%s:sub=%s", f.K, f.Z, f.E, f.Gz, f.Pay, f.Sub)
+	if f.Sc == "OVER" || f.Av == 1 || (f.Hdr < 4 && f.K != "HB") {
+		s += fmt.Sprintf(":hdr=%d:sc=%s:av=%d", f.Hdr, f.Sc, f.Av)
+	}
+	if f.H != "" && f.H != "na" {
+		s += ":h=" + f.H
+	}
 	if f.Cmd != 0 {
 		s += fmt.Sprintf(":cmd=%d", f.Cmd)
 	}
@@ -163,14 +176,15 @@ func (f *frame) streamClass() string {
 }
 
 type caseBeh struct {
-	Frames []frame `json:"frames,omitempty"` // stream: the frames, in order
-	Thr    []int   `json:"thr,omitempty"`    // stream: reader thread of each ReadPacket call
-	Kind   string  `json:"kind"`             // frame | random | mutant | stream (several frames, calls from two threads) | flood (N copies of Frame)
-	Frame  *frame  `json:"frame,omitempty"`
-	Exp    string  `json:"exp,omitempty"` // outcome of ReadPacket predicted by the contract model
-	Salt   int64   `json:"salt"`
-	N      int     `json:"n,omitempty"`     // random: length; mutant: byte offset class
-	Field  string  `json:"field,omitempty"` // mutant: type | len | body
+	Frames []frame    `json:"frames,omitempty"` // stream: the frames, in order
+	Thr    []int      `json:"thr,omitempty"`    // stream: reader thread of each ReadPacket call
+	Conns  []connSpec `json:"conns,omitempty"`  // stream over several connections (then Frames / Thr are unused)
+	Kind   string     `json:"kind"`             // frame | random | mutant | stream (several frames, calls from two threads) | flood (N copies of Frame)
+	Frame  *frame     `json:"frame,omitempty"`
+	Exp    string     `json:"exp,omitempty"` // outcome of ReadPacket predicted by the contract model
+	Salt   int64      `json:"salt"`
+	N      int        `json:"n,omitempty"`     // random: length; mutant: byte offset class
+	Field  string     `json:"field,omitempty"` // mutant: type | len | body; flood: "conns" = every copy on a connection of its own
 }
 
 func (f *frame) class() string {
@@ -397,6 +411,7 @@ var inAtMax = sync.OnceValue(func() int { // input size whose stored-gzip encodi
 
 // body returns the bytes that follow the length field and the declared length.
 func (f *frame) body(r *rand.Rand) (body []byte, declared uint32) {
+	f.resolve(r)
 	switch f.Sc {
 	case "0":
 		return nil, 0
@@ -416,14 +431,10 @@ func (f *frame) body(r *rand.Rand) (body []byte, declared uint32) {
 		size = maxBody
 	}
 	switch {
-	case f.Sub == "mid" && f.Av == 2: // 2-4 KiB on the wire also when compressed: incompressible padding inside the content
-		full = midContent(f, r)
-		if f.Z {
-			full = gz(gzip.BestSpeed, full)
-			if f.Gz == "corrupt" {
-				full[len(full)/2] ^= 0x5a
-			}
-		}
+	case subRange[f.Sub][0] != 0 && f.Av == 2: // KiBs on the wire also when compressed: incompressible padding inside the content
+		full = sizedBody(f, r)
+	case f.Sub == "nano" && f.Av == 2:
+		full = nanoBody(f, r)
 	case f.Cmd != 0 && f.Av == 2:
 		cp, _ := json.Marshal(packet.CommandPacket{CommandType: packet.CommandType(f.Cmd), CommandId: fmt.Sprintf("c%d", r.Intn(1000)), Token: "t",
 			SenderId: "1", ReceiverId: "2", CommandBody: bodies[r.Intn(len(bodies))]})
@@ -567,32 +578,127 @@ func randAlnum(r *rand.Rand, n int) string {
 	return string(b)
 }
 
-// midContent: content of class f.Pay of about 3000 bytes that gzip cannot shrink below 2 KiB.
-func midContent(f *frame, r *rand.Rand) []byte {
-	pad := randAlnum(r, 2850+r.Intn(100))
+// subRange: body size on the wire (bytes) of the size classes above "tiny"; all of "mid" lies in the first 4 KiB
+// class of the buffer pool and above every tiny body, "big" and "big2" in the second class, big2 above every big body.
+var subRange = map[string][2]int{"mid": {2100, 4000}, "big": {4200, 5500}, "big2": {7000, 8150}}
+
+// padContent: content of class f.Pay for kind f.K of about n bytes that gzip cannot shrink by more than a quarter.
+func padContent(f *frame, n int, r *rand.Rand) []byte {
 	if f.Pay != "good" {
-		b := make([]byte, 3000)
+		b := make([]byte, n)
 		r.Read(b)
 		copy(b, []byte{0x00, 0xff, '{', '{'})
 		return b
 	}
-	switch f.K {
-	case "CMD", "RESP":
-		ct := f.Cmd
-		if ct == 0 {
-			ct = cmdTypes[r.Intn(len(cmdTypes))]
+	mk := func(pad string) []byte {
+		switch f.K {
+		case "CMD", "RESP":
+			ct := f.Cmd
+			if ct == 0 {
+				ct = cmdTypes[r.Intn(len(cmdTypes))]
+			}
+			b, _ := json.Marshal(packet.CommandPacket{CommandType: packet.CommandType(ct), CommandId: "mid", Token: "t", SenderId: "1", ReceiverId: "2",
+				CommandBody: `{"pad":"` + pad + `"}`})
+			return b
+		case "HS":
+			b, _ := json.Marshal(packet.HandshakeRequest{ClientID: 12345678, Version: pad, Protocol: "tcp"})
+			return b
+		case "TOPEN":
+			b, _ := json.Marshal(packet.TunnelOpenRequest{MappingID: "m", TunnelID: "t-" + pad[:40], SecretKey: pad})
+			return b
 		}
-		b, _ := json.Marshal(packet.CommandPacket{CommandType: packet.CommandType(ct), CommandId: "mid", Token: "t", SenderId: "1", ReceiverId: "2",
-			CommandBody: `{"pad":"` + pad + `"}`})
-		return b
-	case "HS":
-		b, _ := json.Marshal(packet.HandshakeRequest{ClientID: 12345678, Version: pad, Protocol: "tcp"})
-		return b
-	case "TOPEN":
-		b, _ := json.Marshal(packet.TunnelOpenRequest{MappingID: "m", TunnelID: "t-" + pad[:40], SecretKey: pad})
-		return b
+		return []byte(`{"tunnel_id":"t1","success":true,"pad":"` + pad + `"}`)
 	}
-	return []byte(`{"tunnel_id":"t1","success":true,"pad":"` + pad + `"}`)
+	over := len(mk(strings.Repeat("p", 40))) - 40
+	if n-over < 40 {
+		n = over + 40
+	}
+	return mk(randAlnum(r, n-over))
+}
+
+// sizedBody: the body of a frame of size class mid / big / big2, compressed or not - its length ON THE WIRE is in the class's range.
+func sizedBody(f *frame, r *rand.Rand) []byte {
+	rg := subRange[f.Sub]
+	target := rg[0] + (rg[1]-rg[0])/4 + r.Intn((rg[1]-rg[0])/2)
+	n := target
+	if f.Z {
+		n = target * 4 / 3
+	}
+	var out []byte
+	for i := 0; i < 60; i++ {
+		out = padContent(f, n, r)
+		if f.Z {
+			out = gz(gzip.BestSpeed, out)
+		}
+		if len(out) >= rg[0] && len(out) <= rg[1] {
+			break
+		}
+		n += target - len(out)
+		if n < 64 {
+			n = 64
+		}
+	}
+	if len(out) < rg[0] || len(out) > rg[1] {
+		panic(fmt.Sprintf("sizedBody %s: %d bytes outside %v", f.streamClass(), len(out), rg))
+	}
+	if f.Z && f.Gz == "corrupt" {
+		out[len(out)/2] ^= 0x5a
+	}
+	return out
+}
+
+// nanoBody: a body of 1..3 bytes (shorter than the 4-byte length buffer): the first bytes of a gzip member, the two
+// bytes {} (a well-formed, empty command), an unfinished JSON object, or random bytes.
+func nanoBody(f *frame, r *rand.Rand) []byte {
+	n := 1 + r.Intn(3)
+	cmd := f.K == "CMD" || f.K == "RESP"
+	switch {
+	case f.Z:
+		return []byte{0x1f, 0x8b, 0x08}[:n]
+	case cmd && f.Pay == "good":
+		return []byte("{}")
+	case cmd:
+		return []byte(`{"x`)[:n]
+	}
+	b := make([]byte, n)
+	r.Read(b)
+	return b
+}
+
+// command types by handler class, taken from the REAL registry of the assembled server: "duplex" = a registered
+// duplex handler, "session" = answered by handleCommandPacket itself, "none" = everything else
+var cmdClasses = sync.OnceValue(func() map[string][]int {
+	out := map[string][]int{}
+	s, err := getServer()
+	if err != nil {
+		panic(err)
+	}
+	special := map[int]bool{int(packet.Disconnect): true, int(packet.SOCKS5TunnelRequestCmd): true, int(packet.TunnelTrafficReport): true,
+		int(packet.DNSResolve): true, int(packet.DNSQuery): true}
+	for ct := 1; ct < 256; ct++ {
+		h, ok := s.reg.GetHandler(packet.CommandType(ct))
+		switch {
+		case special[ct]:
+			out["session"] = append(out["session"], ct)
+		case ok && h.GetDirection() == command.DirectionDuplex:
+			out["duplex"] = append(out["duplex"], ct)
+		case ok:
+			out["oneway"] = append(out["oneway"], ct)
+		default:
+			out["none"] = append(out["none"], ct)
+		}
+	}
+	return out
+})
+
+// resolve picks the command type of a frame that only names a handler class.
+func (f *frame) resolve(r *rand.Rand) {
+	if f.Cmd != 0 || f.H == "" || f.H == "na" || f.Pay != "good" || (f.K != "CMD" && f.K != "RESP") || f.Sub == "nano" {
+		return
+	}
+	if cs := cmdClasses()[f.H]; len(cs) > 0 {
+		f.Cmd = cs[r.Intn(len(cs))]
+	}
 }
 
 var unkTypes = []byte{0x00, 0x04, 0x0f, 0x12, 0x1f, 0x25, 0x30, 0x3f}
@@ -663,6 +769,80 @@ func validPacket(r *rand.Rand) ([]byte, string) {
 	return append([]byte(nil), buf.Bytes()...), fmt.Sprintf("%s:z=%v", k, z)
 }
 
+// ---- watchdogs under load ---------------------------------------------------------------------------
+
+var (
+	spinSink uint64
+	unitMu   sync.Mutex
+	unitMin  time.Duration // fastest burst seen so far = the unloaded cost of one burst
+)
+
+func burst(k int) time.Duration {
+	t0 := time.Now()
+	x := uint64(88172645463325252)
+	for i := 0; i < k*300000; i++ {
+		x = x*6364136223846793005 + 1442695040888963407
+	}
+	atomic.StoreUint64(&spinSink, x)
+	return time.Since(t0)
+}
+
+// calibrate: the fastest of many short bursts ran without being descheduled - also on a loaded machine.
+func calibrate(n int) {
+	unitMu.Lock()
+	defer unitMu.Unlock()
+	for i := 0; i < n; i++ {
+		if d := burst(1); unitMin == 0 || d < unitMin {
+			unitMin = d
+		}
+	}
+}
+
+// slowdown: how many times slower than unloaded a CPU-bound goroutine of this process runs right now
+// (median of three probes of 60 bursts each, i.e. much longer than a scheduler time slice).
+func slowdown() float64 {
+	calibrate(20)
+	var d []time.Duration
+	for i := 0; i < 3; i++ {
+		d = append(d, burst(60))
+	}
+	sort.Slice(d, func(i, j int) bool { return d[i] < d[j] })
+	unitMu.Lock()
+	defer unitMu.Unlock()
+	return float64(d[1]) / float64(60*unitMin)
+}
+
+// recvWithin receives from ch within the watchdog period wd. When the period has passed and nothing is there, the
+// present slowdown of this process is probed: at a quarter of the unloaded speed or less the margin the watchdog was
+// given (>= 3x the slowest legitimate call) is gone, and the wait goes on for up to three more periods - a call that
+// returns then was slow, not stuck. "Blocks for ever" is only said of a call that is still out after that.
+func recvWithin[T any](ch <-chan T, wd time.Duration) (v T, ok bool) {
+	select {
+	case v = <-ch:
+		return v, true
+	case <-time.After(wd):
+	}
+	select { // the timer and the result may have become ready together (a process that was not scheduled for a while)
+	case v = <-ch:
+		return v, true
+	default:
+	}
+	if f := slowdown(); f >= 4 {
+		fmt.Printf("[load] watchdog of %v expired while this process runs %.0fx slower than unloaded: waiting up to %v more\n", wd, f, 3*wd)
+		select {
+		case v = <-ch:
+			return v, true
+		case <-time.After(3 * wd):
+		}
+		select {
+		case v = <-ch:
+			return v, true
+		default:
+		}
+	}
+	return v, false
+}
+
 // ---- one measured call ------------------------------------------------------------------------------
 
 type callResult struct {
@@ -689,9 +869,7 @@ func measured(wd time.Duration, f func()) callResult {
 		}()
 		f()
 	}()
-	select {
-	case <-done:
-	case <-time.After(wd):
+	if _, ok := recvWithin(done, wd); !ok {
 		res.timedOut = true
 	}
 	res.dur = time.Since(start)
@@ -837,33 +1015,94 @@ type callOut struct {
 	done           bool
 }
 
-// driveStream: several frames on one connection; the ReadPacket (+HandlePacket) calls are made by two goroutines
-// that take turns as the behaviour says and busy-wait in between, so that each keeps its own P - the situation of a
-// connection's read goroutine that is rescheduled onto another P between two packets. One more call is made after
-// the last frame (end of stream). Allocation is not measured here (two goroutines run).
+// connSpec: the frames the peer sends on one connection and the reader thread of each ReadPacket call.
+type connSpec struct {
+	Frames []frame  `json:"frames"`
+	Thr    []int    `json:"thr"`
+	Exits  []string `json:"exits,omitempty"` // exit of each call predicted by the model (spec/FramingRes.tla), informational
+}
+
+// the calls made at the end of every connection's stream: the three holders of StreamProcessor.readLock, and ReadPacket once more
+var finalOps = []string{"ReadPacket", "ReadExact", "ReadAvailable", "ReadPacket"}
+
+// realExit names the exit of ReadPacket that a real outcome corresponds to (the vocabulary of spec/FramingRes.tla).
+func realExit(o *callOut) string {
+	switch {
+	case o.read == "Packet" && packet.Type(o.typ).IsHeartbeat():
+		return "hb"
+	case o.read == "Packet":
+		return "ok"
+	case o.read != "Error":
+		return "none"
+	}
+	for _, m := range [][2]string{{"read_packet_type", "eof"}, {"read_packet_body_size", "lenErr"}, {"exceeds maximum", "oversize"}, {"read_packet_body", "bodyErr"},
+		{"encryption not supported", "enc"}, {"json_unmarshal", "jsonErr"}, {"decompress", "gzErr"}, {"gzip", "gzErr"}} {
+		if strings.Contains(o.rmsg, m[0]) {
+			return m[1]
+		}
+	}
+	return "other"
+}
+
+// driveStream: one or several connections, one after the other; on each the peer's frames are read by ReadPacket
+// (+ HandlePacket) calls made by two goroutines that take turns as the behaviour says and busy-wait in between, so
+// that each keeps its own P - the situation of a connection's read goroutine that is rescheduled onto another P between
+// two packets. At the end of each stream four more calls are made - ReadPacket, ReadExact, ReadAvailable, ReadPacket -
+// alternating between the threads; then the connection is closed. Allocation is not measured here (two goroutines run).
 func driveStream(env *fw.Env, c *caseBeh, r *rand.Rand) *fw.Trace {
-	var data []byte
-	for i := range c.Frames {
-		data = append(data, c.Frames[i].bytes(r)...)
+	conns := c.Conns
+	if len(conns) == 0 {
+		conns = []connSpec{{Frames: c.Frames, Thr: c.Thr}}
 	}
 	s, err := getServer()
 	if err != nil {
 		return &fw.Trace{Status: fw.DriverError, Note: "server assembly: " + err.Error()}
 	}
+	t := &fw.Trace{Status: fw.Realised}
+	prev := ""
+	for ci := range conns {
+		where := ""
+		if len(conns) > 1 {
+			where = fmt.Sprintf(":conn=%d", ci+1)
+			if ci > 0 {
+				where += ":prevconn=(" + prev + ")"
+			}
+		}
+		ok, err := driveConn(s, &conns[ci], where, r, t)
+		if err != nil {
+			return &fw.Trace{Status: fw.DriverError, Note: err.Error()}
+		}
+		if !ok {
+			break
+		}
+		if n := len(conns[ci].Frames); n > 0 {
+			prev = conns[ci].Frames[n-1].streamClass()
+		}
+	}
+	return t
+}
+
+// driveConn runs one connection of a stream behaviour and appends its events to t; false = a call hung or panicked.
+func driveConn(s *srv, cs *connSpec, where string, r *rand.Rand, t *fw.Trace) (bool, error) {
+	var data []byte
+	for i := range cs.Frames {
+		data = append(data, cs.Frames[i].bytes(r)...)
+	}
 	out := &sink{}
 	sc, err := s.sm.AcceptConnection(bytes.NewReader(data), out)
 	if err != nil {
-		return &fw.Trace{Status: fw.DriverError, Note: "AcceptConnection: " + err.Error()}
+		return false, fmt.Errorf("AcceptConnection: %v", err)
 	}
 	defer func() { _ = s.sm.CloseConnection(sc.ID) }()
-	total := len(c.Frames) + 1
+	nf := len(cs.Frames)
+	total := nf + len(finalOps)
 	sched := make([]int, total)
 	for i := range sched {
 		sched[i] = 1
-		if i < len(c.Thr) {
-			sched[i] = c.Thr[i]
+		if i < len(cs.Thr) && i < nf {
+			sched[i] = cs.Thr[i]
 		} else if i > 0 {
-			sched[i] = 3 - sched[i-1] // the end-of-stream call: from the other thread
+			sched[i] = 3 - sched[i-1] // the end-of-stream calls: each from the other thread
 		}
 	}
 	res := make([]callOut, total)
@@ -880,6 +1119,10 @@ func driveStream(env *fw.Env, c *caseBeh, r *rand.Rand) *fw.Trace {
 				continue // busy-wait: this goroutine stays on its own P
 			}
 			o := &res[cur]
+			op := "ReadPacket"
+			if int(cur) >= nf {
+				op = finalOps[int(cur)-nf]
+			}
 			var pkt *packet.TransferPacket
 			func() {
 				defer func() {
@@ -887,6 +1130,29 @@ func driveStream(env *fw.Env, c *caseBeh, r *rand.Rand) *fw.Trace {
 						o.rpanic, o.rmsg = true, fmt.Sprint(x)
 					}
 				}()
+				switch op {
+				case "ReadExact":
+					if _, rerr := sc.Stream.ReadExact(4); rerr != nil {
+						o.read, o.rmsg = "Error", trunc(rerr.Error())
+					} else {
+						o.read = "Data"
+					}
+					return
+				case "ReadAvailable":
+					ra, ok := sc.Stream.(interface {
+						ReadAvailable(int) ([]byte, error)
+					})
+					if !ok {
+						o.read, o.rmsg = "Error", "no ReadAvailable"
+						return
+					}
+					if _, rerr := ra.ReadAvailable(0); rerr != nil {
+						o.read, o.rmsg = "Error", trunc(rerr.Error())
+					} else {
+						o.read = "Data"
+					}
+					return
+				}
 				p, _, rerr := sc.Stream.ReadPacket()
 				if rerr != nil {
 					o.read, o.rmsg = "Error", trunc(rerr.Error())
@@ -916,39 +1182,51 @@ func driveStream(env *fw.Env, c *caseBeh, r *rand.Rand) *fw.Trace {
 			}
 			o.done = true
 			atomic.StoreInt64(&turn, cur+1)
+			if o.rpanic || o.dpanic { // a panic ends the read loop (in the server: the process)
+				atomic.StoreInt64(&stop, 1)
+				return
+			}
 		}
 	}
 	go worker(1)
 	go worker(2)
 	timedOut := false
-	deadline := time.After(20 * time.Second)
-	for k := 0; k < 2 && !timedOut; k++ {
-		select {
-		case <-done:
-		case <-deadline:
-			timedOut = true
-			atomic.StoreInt64(&stop, 1)
-			atomic.AddInt32(&hangs, 1)
-		}
+	both := make(chan struct{})
+	go func() {
+		<-done
+		<-done
+		close(both)
+	}()
+	if _, ok := recvWithin(both, 20*time.Second); !ok {
+		timedOut = true
+		atomic.StoreInt64(&stop, 1)
+		atomic.AddInt32(&hangs, 1)
 	}
-	t := &fw.Trace{Status: fw.Realised}
 	upto := int(atomic.LoadInt64(&turn))
+	good := !timedOut
 	for i := 0; i < total && i <= upto; i++ {
 		cls := "end-of-stream"
-		if i < len(c.Frames) {
-			cls = c.Frames[i].streamClass()
+		if i < nf {
+			cls = cs.Frames[i].streamClass()
+		} else {
+			cls += ":op=" + finalOps[i-nf]
 		}
 		switch {
 		case i == 0:
 			cls += ":first"
 		default:
-			cls += ":after=(" + c.Frames[i-1].streamClass() + ")"
+			if i <= nf {
+				cls += ":after=(" + cs.Frames[i-1].streamClass() + ")"
+			} else {
+				cls += ":after=(end-of-stream)"
+			}
 			if sched[i] != sched[i-1] {
 				cls += ":thr=switch"
 			} else {
 				cls += ":thr=same"
 			}
 		}
+		cls += where
 		o := res[i]
 		hung := timedOut && i == upto && !o.done
 		if i == upto && !hung && !o.done {
@@ -959,6 +1237,9 @@ func driveStream(env *fw.Env, c *caseBeh, r *rand.Rand) *fw.Trace {
 		if o.read == "" {
 			rd["outcome"] = "None"
 		}
+		if i < nf && i < len(cs.Exits) && !hung && !o.rpanic {
+			rd["mexit"], rd["exit"] = cs.Exits[i], realExit(&o)
+		}
 		t.Events = append(t.Events, rd)
 		if o.dispatched {
 			d := fw.Event{"ev": "Dispatch", "panicked": o.dpanic, "timedOut": hung, "allocKiB": 0, "outcome": o.disp, "msg": o.dmsg}
@@ -967,38 +1248,54 @@ func driveStream(env *fw.Env, c *caseBeh, r *rand.Rand) *fw.Trace {
 			}
 			t.Events = append(t.Events, d)
 		}
+		if o.rpanic || o.dpanic {
+			good = false
+		}
 	}
-	return t
+	return good, nil
 }
 
-func liveHeapKiB() int64 {
+// liveKiB: live heap plus goroutine stacks after two collections; goroutines spawned by the handlers of the packets
+// handled so far are given up to a second to finish (base = goroutines before the flood started).
+func liveKiB(base int) (int64, int) {
+	for i := 0; i < 200 && runtime.NumGoroutine() > base; i++ {
+		time.Sleep(5 * time.Millisecond)
+	}
+	g := runtime.NumGoroutine()
 	runtime.GC()
 	runtime.GC()
 	var m runtime.MemStats
 	runtime.ReadMemStats(&m)
-	return int64(m.HeapAlloc / 1024)
+	return int64((m.HeapAlloc + m.StackInuse) / 1024), g
 }
 
-// driveFlood: N copies of one small frame on one connection, read and dispatched in a loop by one goroutine; the
-// live heap is taken after N/2 and after N packets: what the server keeps per handled packet shows as growth.
+// driveFlood: N copies of one small frame, read and dispatched in a loop by one goroutine - all on ONE connection
+// (Field = "" / "conn"), or each on a connection of its own that is accepted, served and closed (Field = "conns").
+// Live memory is taken after N/2 and after N packets: what the server keeps per handled packet / per closed
+// connection shows as growth.
 func driveFlood(env *fw.Env, c *caseBeh, r *rand.Rand) *fw.Trace {
 	one := c.Frame.bytes(r)
-	data := bytes.Repeat(one, c.N)
+	perConn := c.Field == "conns"
 	s, err := getServer()
 	if err != nil {
 		return &fw.Trace{Status: fw.DriverError, Note: "server assembly: " + err.Error()}
 	}
 	out := &sink{}
-	sc, err := s.sm.AcceptConnection(bytes.NewReader(data), out)
-	if err != nil {
-		return &fw.Trace{Status: fw.DriverError, Note: "AcceptConnection: " + err.Error()}
+	var sc *types.StreamConnection
+	if !perConn {
+		sc, err = s.sm.AcceptConnection(bytes.NewReader(bytes.Repeat(one, c.N)), out)
+		if err != nil {
+			return &fw.Trace{Status: fw.DriverError, Note: "AcceptConnection: " + err.Error()}
+		}
+		defer func() { _ = s.sm.CloseConnection(sc.ID) }()
 	}
-	defer func() { _ = s.sm.CloseConnection(sc.ID) }()
 	var replies, refusals, readErrs int
 	var h0, h1, h2 int64
-	var pmsg string
+	var g1, g2 int
+	var pmsg, derr string
 	fin := make(chan bool, 1)
 	start := time.Now()
+	base := runtime.NumGoroutine() + 1
 	go func() {
 		defer func() {
 			if x := recover(); x != nil {
@@ -1006,40 +1303,56 @@ func driveFlood(env *fw.Env, c *caseBeh, r *rand.Rand) *fw.Trace {
 				fin <- true
 			}
 		}()
-		h0 = liveHeapKiB()
+		h0, _ = liveKiB(base)
 		for i := 0; i < c.N; i++ {
 			if i == c.N/2 {
-				h1 = liveHeapKiB()
+				h1, g1 = liveKiB(base)
 			}
-			pkt, _, rerr := sc.Stream.ReadPacket()
-			if rerr != nil {
+			conn := sc
+			if perConn {
+				var aerr error
+				if conn, aerr = s.sm.AcceptConnection(bytes.NewReader(one), out); aerr != nil {
+					derr = "AcceptConnection: " + aerr.Error()
+					break
+				}
+			}
+			pkt, _, rerr := conn.Stream.ReadPacket()
+			switch {
+			case rerr != nil:
 				readErrs++
-				continue
-			}
-			if herr := s.sm.HandlePacket(&types.StreamPacket{ConnectionID: sc.ID, Packet: pkt, Timestamp: time.Now()}); herr != nil {
+			case s.sm.HandlePacket(&types.StreamPacket{ConnectionID: conn.ID, Packet: pkt, Timestamp: time.Now()}) != nil:
 				refusals++
-			} else {
+			default:
 				replies++
 			}
+			if perConn {
+				_ = s.sm.CloseConnection(conn.ID)
+			}
 		}
-		h2 = liveHeapKiB()
+		h2, g2 = liveKiB(base)
 		fin <- false
 	}()
-	ev := fw.Event{"ev": "Flood", "n": c.N, "panicked": false, "timedOut": false, "growKiB": 0, "replies": 0}
-	select {
-	case p := <-fin:
+	ev := fw.Event{"ev": "Flood", "n": c.N, "panicked": false, "timedOut": false, "growKiB": 0, "growG": 0, "replies": 0}
+	if p, ok := recvWithin(fin, 120*time.Second); ok {
 		ev["panicked"] = p
 		ev["msg"] = pmsg
-	case <-time.After(120 * time.Second):
+	} else {
 		ev["timedOut"] = true
 		atomic.AddInt32(&hangs, 1)
 	}
+	if derr != "" {
+		return &fw.Trace{Status: fw.DriverError, Note: derr}
+	}
 	if ev["panicked"] == false && ev["timedOut"] == false {
-		ev["growKiB"], ev["firstHalfKiB"], ev["replies"], ev["refusals"], ev["readErrs"] = h2-h1, h1-h0, replies, refusals, readErrs
+		ev["growKiB"], ev["firstHalfKiB"], ev["growG"], ev["replies"], ev["refusals"], ev["readErrs"] = h2-h1, h1-h0, g2-g1, replies, refusals, readErrs
 	}
 	ev["ms"] = time.Since(start).Milliseconds()
 	t := &fw.Trace{Status: fw.Realised}
-	t.Events = append(t.Events, fw.Event{"ev": "Case", "cls": "flood:" + c.Frame.streamClass()}, ev)
+	kind := "flood:"
+	if perConn {
+		kind = "flood-conns:"
+	}
+	t.Events = append(t.Events, fw.Event{"ev": "Case", "cls": kind + c.Frame.streamClass()}, ev)
 	return t
 }
 
@@ -1061,9 +1374,8 @@ func hashOf(b []byte) int64 {
 // command types that go through a registered handler or a special path of handleCommandPacket
 var floodCmds = []int{50, 70, 71, 72, 73, 74, 75, 76, 82, 83, 84, 85, 86, 87, 11, 90, 110, 120, 121, 80, 81, 100, 102, 10, 99}
 
-// expandStream turns a generated stream behaviour {frames, calls} into a stream case; a stream of two identical
-// frames read by one thread additionally stands for "the same frame again and again": a flood of N copies
-// (command frames: one flood per command type), the size of N being to repetition what 16 MiB is to "MAX".
+// expandStream turns a stream behaviour {frames, calls} generated from spec/Framing.tla (Framing_stream.cfg, thorough
+// tier) into a stream case; floods are derived from the behaviours of spec/FramingRes.tla (expandRes).
 func expandStream(env *fw.Env, raw json.RawMessage, h int64, keep func(int64) bool) []json.RawMessage {
 	var g struct {
 		Frames []frame `json:"frames"`
@@ -1081,40 +1393,100 @@ func expandStream(env *fw.Env, raw json.RawMessage, h int64, keep func(int64) bo
 		}
 	}
 	var out []json.RawMessage
-	per := int64(70)
+	if keep(150) {
+		out = append(out, fw.MustJSON(c))
+	}
+	return out
+}
+
+// expandRes turns a behaviour generated from spec/FramingRes.tla - {calls: [{conn, fr, thr, exit}]} - into a stream
+// case. Kept: every behaviour that ends in a PROBE (a long uncompressed payload frame as the second frame of a
+// connection: it asks the buffer pool for the longest buffer of its size class, on the same or on the other thread,
+// after whatever the first frame left behind), every behaviour of two identical frames, and a seeded sample of the
+// rest. Two identical frames additionally stand for "the same frame again and again": a flood of N copies on one
+// connection (read by one thread), or - when the model put them on two connections - N connections with one copy each;
+// N is to repetition what 16 MiB is to "MAX". Command frames: one flood per command type of the frame's handler class.
+func expandRes(env *fw.Env, raw json.RawMessage, h int64, keep func(int64) bool) []json.RawMessage {
+	var g struct {
+		Calls []struct {
+			Conn int    `json:"conn"`
+			Fr   frame  `json:"fr"`
+			Thr  int    `json:"thr"`
+			Exit string `json:"exit"`
+		} `json:"calls"`
+	}
+	if err := json.Unmarshal(raw, &g); err != nil {
+		panic(err)
+	}
+	c := caseBeh{Kind: "stream", Salt: env.Seed*1000003 + h}
+	for _, x := range g.Calls {
+		for x.Conn > len(c.Conns) {
+			c.Conns = append(c.Conns, connSpec{})
+		}
+		cs := &c.Conns[x.Conn-1]
+		cs.Frames, cs.Thr, cs.Exits = append(cs.Frames, x.Fr), append(cs.Thr, x.Thr), append(cs.Exits, x.Exit)
+	}
+	if len(g.Calls) == 0 {
+		return nil
+	}
+	last := g.Calls[len(g.Calls)-1].Fr
+	probe := len(c.Conns) == 1 && len(g.Calls) >= 2 && last.K == "PAY" && !last.Z && !last.E && last.Sc == "S" && last.Av == 2 && (last.Sub == "mid" || last.Sub == "big2")
+	same := len(g.Calls) == 2 && g.Calls[0].Fr == g.Calls[1].Fr && (len(c.Conns) == 2 || g.Calls[1].Thr == 1)
+	var out []json.RawMessage
+	per := int64(55)
 	if env.Tier == "thorough" {
 		per = 1000
 	}
-	if keep(per) {
+	if probe || same || keep(per) {
 		out = append(out, fw.MustJSON(c))
 	}
-	if len(g.Frames) == 2 && g.Frames[0] == g.Frames[1] && len(c.Thr) == 2 && c.Thr[0] == 1 && c.Thr[1] == 1 {
-		f := g.Frames[0]
-		n := 2500
-		if env.Tier == "thorough" {
-			n = 6000
-		}
-		switch {
-		case f.K == "HB" || f.Sub == "mid":
-		case f.K == "CMD" && f.Pay == "good" && !f.E:
-			cmds := floodCmds
-			if env.Tier == "thorough" {
-				cmds = cmdTypes
-			}
-			for _, ct := range cmds {
-				if ct == 0 {
-					continue
-				}
-				ff := f
-				ff.Cmd = ct
-				out = append(out, fw.MustJSON(caseBeh{Kind: "flood", Frame: &ff, N: n, Salt: env.Seed*31 + int64(ct)}))
-			}
-		default:
-			ff := f
-			out = append(out, fw.MustJSON(caseBeh{Kind: "flood", Frame: &ff, N: n, Salt: env.Seed * 37}))
-		}
+	if !same {
+		return out
 	}
-	return out
+	f := g.Calls[0].Fr
+	n, field := 3000, "conn"
+	if len(c.Conns) == 2 {
+		n, field = 1500, "conns"
+	}
+	if env.Tier == "thorough" {
+		n *= 3
+	}
+	if f.K == "HB" || subRange[f.Sub][0] != 0 { // heartbeats are answered; long frames cost too much for what they add
+		return out
+	}
+	// quick tier, one connection per copy: every dispatched kind and every misaligning frame, a seeded half of the rest
+	if field == "conns" && env.Tier != "thorough" && f.Sc == "S" && f.Av == 2 && (f.E || f.Z || f.K == "PAY" || f.K == "UNK") && !keep(500) {
+		return out
+	}
+	if f.K == "CMD" && f.Pay == "good" && f.H != "" && f.H != "na" && f.Sub != "nano" {
+		pick := floodCmds
+		if env.Tier == "thorough" {
+			pick = cmdTypes
+		}
+		var cmds []int
+		for _, ct := range cmdClasses()[f.H] {
+			for _, fc := range pick {
+				if fc == ct {
+					cmds = append(cmds, ct)
+				}
+			}
+		}
+		if env.Tier != "thorough" {
+			if field == "conns" && len(cmds) > 4 { // seeded choice of four command types of the class
+				rr := rand.New(rand.NewSource(env.Seed*131 + int64(len(f.H))))
+				rr.Shuffle(len(cmds), func(i, j int) { cmds[i], cmds[j] = cmds[j], cmds[i] })
+				cmds = cmds[:4]
+			}
+		}
+		for _, ct := range cmds {
+			ff := f
+			ff.Cmd = ct
+			out = append(out, fw.MustJSON(caseBeh{Kind: "flood", Field: field, Frame: &ff, N: n, Salt: env.Seed*31 + int64(ct)}))
+		}
+		return out
+	}
+	ff := f
+	return append(out, fw.MustJSON(caseBeh{Kind: "flood", Field: field, Frame: &ff, N: n, Salt: env.Seed * 37}))
 }
 
 func extra(env *fw.Env) []json.RawMessage {
@@ -1197,7 +1569,7 @@ func selfTest(env *fw.Env, acc []*fw.Trace) []*fw.Trace {
 	}
 	n := 0
 	for _, t := range acc {
-		if n >= 4 || len(t.Events) < 3 || t.Events[2]["ev"] != "Dispatch" {
+		if n >= 4 || len(t.Events) < 3 || t.Events[2]["ev"] != "Dispatch" || t.Events[0]["call"] != nil {
 			continue
 		}
 		n++
@@ -1216,6 +1588,42 @@ func selfTest(env *fw.Env, acc []*fw.Trace) []*fw.Trace {
 			c := clone(t)
 			m(c)
 			out = append(out, c)
+		}
+	}
+	// streams: a call that hung / panicked / whose report is missing; floods: retained memory, a hang
+	ns, nfl := 0, 0
+	for _, t := range acc {
+		k := len(t.Events)
+		switch {
+		case k >= 4 && t.Events[0]["call"] != nil && ns < 3:
+			ns++
+			last := k - 1
+			for t.Events[last]["ev"] != "Read" {
+				last--
+			}
+			mid := 1 // the report of the first call
+			for _, m := range []func(c *fw.Trace){
+				func(c *fw.Trace) { c.Events[last]["timedOut"] = true },
+				func(c *fw.Trace) { c.Events[last]["panicked"] = true },
+				func(c *fw.Trace) { c.Events[mid]["outcome"] = "None" },
+				func(c *fw.Trace) { c.Events = append(c.Events[:mid:mid], c.Events[mid+1:]...) },
+			} {
+				c := clone(t)
+				m(c)
+				out = append(out, c)
+			}
+		case k == 2 && t.Events[1]["ev"] == "Flood" && t.Events[1]["replies"] == 0 && nfl < 3:
+			nfl++
+			for _, m := range []func(c *fw.Trace){
+				func(c *fw.Trace) { c.Events[1]["growKiB"] = int64(97) },
+				func(c *fw.Trace) { c.Events[1]["timedOut"] = true },
+				func(c *fw.Trace) { c.Events[1]["panicked"] = true },
+				func(c *fw.Trace) { c.Events = c.Events[:1] },
+			} {
+				c := clone(t)
+				m(c)
+				out = append(out, c)
+			}
 		}
 	}
 	return out
@@ -1254,10 +1662,111 @@ func postDrive(env *fw.Env, traces []*fw.Trace) error {
 		}
 		fmt.Printf("[bind]   divergence %s\n", k)
 	}
+	// streams: the exit of every ReadPacket call as predicted by spec/FramingRes.tla
+	total, same = 0, 0
+	div = map[string]int{}
+	for _, t := range traces {
+		cls := ""
+		for _, e := range t.Events {
+			if e["ev"] == "Case" {
+				cls, _ = e["cls"].(string)
+			}
+			m, ok := e["mexit"].(string)
+			if e["ev"] != "Read" || !ok {
+				continue
+			}
+			total++
+			if e["exit"] == m {
+				same++
+			} else {
+				if i := strings.Index(cls, ":after="); i > 0 {
+					cls = cls[:i]
+				}
+				div[fmt.Sprintf("%s: model %s, code %v", strings.TrimSuffix(cls, ":first"), m, e["exit"])]++
+			}
+		}
+	}
+	fmt.Printf("[bind] exit of ReadPacket as predicted by the resource model for %d of %d calls of the stream behaviours\n", same, total)
+	keys = keys[:0]
+	for k := range div {
+		keys = append(keys, k)
+	}
+	sort.Strings(keys)
+	for i, k := range keys {
+		if i >= 8 {
+			fmt.Printf("[bind]   ... and %d more\n", len(keys)-i)
+			break
+		}
+		fmt.Printf("[bind]   divergence %s\n", k)
+	}
+	if showResult == nil { // replay: the model jobs were not run
+		return nil
+	}
+	return <-showResult
+}
+
+// started together with the model jobs, collected after the drive
+var showResult chan error
+
+// showDeviations: under each named deviation of spec/FramingRes.tla TLC must exhibit the violation of the clause it
+// breaks (FramingRes_show_*.cfg) - the model really contains the mechanism and the invariants are not vacuous.
+// Quick tier: the three seeded deviations; thorough: every site / exit / table.
+func showDeviations(env *fw.Env) error {
+	type show struct{ cfg, key, val, inv string }
+	shows := []show{{"FramingRes_show_pool.cfg", "SITE", "gunzip", "NoPanic"}, {"FramingRes_show_lock.cfg", "EXIT", "enc", "NeverBlocked"},
+		{"FramingRes_show_retain.cfg", "KEEP", "pending:refused", "NothingPending"}}
+	if env.Tier == "thorough" {
+		for _, v := range []string{"enc", "gunzipErr", "json", "jsonErr", "payload"} {
+			shows = append(shows, show{"FramingRes_show_pool.cfg", "SITE", v, "NoPanic"}, show{"FramingRes_show_pool.cfg", "SITE", v, "PoolSound"})
+		}
+		for _, v := range []string{"eof", "hb", "lenErr", "oversize", "bodyErr", "gzErr", "jsonErr", "ok", "exactEof", "availEof"} {
+			shows = append(shows, show{"FramingRes_show_lock.cfg", "EXIT", v, "NeverBlocked"}, show{"FramingRes_show_lock.cfg", "EXIT", v, "LockFree"})
+		}
+		for _, v := range []string{"pending:ok", "pending:timeout"} {
+			shows = append(shows, show{"FramingRes_show_retain.cfg", "KEEP", v, "NothingPending"})
+		}
+		for _, v := range []string{"ctl:close", "conn:close", "stream:close"} {
+			shows = append(shows, show{"FramingRes_show_retain.cfg", "KEEP", v, "NothingAfterClose"})
+		}
+	}
+	errs := make([]error, len(shows))
+	var wg sync.WaitGroup
+	sem := make(chan struct{}, 4)
+	for i, sh := range shows {
+		wg.Add(1)
+		go func(i int, sh show) {
+			defer wg.Done()
+			sem <- struct{}{}
+			defer func() { <-sem }()
+			r, err := fw.RunTLC(fw.TLCJob{Name: "show:" + sh.val, Module: "FramingRes", Cfg: sh.cfg, Workers: 2,
+				Consts: map[string]string{sh.key: sh.val, "INV": sh.inv}})
+			if err != nil {
+				errs[i] = err
+			} else if r.OK || !strings.Contains(r.Violation, sh.inv) {
+				errs[i] = fmt.Errorf("deviation %s = %s of spec/FramingRes.tla no longer exhibits %s violated (ok=%v violation=%q)", sh.key, sh.val, sh.inv, r.OK, r.Violation)
+			}
+		}(i, sh)
+	}
+	wg.Wait()
+	for _, err := range errs {
+		if err != nil {
+			return err
+		}
+	}
+	fmt.Printf("[model] %d named deviations of spec/FramingRes.tla: TLC exhibits the violated clause for each (expected)\n", len(shows))
 	return nil
 }
 
+// resFrames: frames per behaviour in the exhaustive run of spec/FramingRes.tla
+func resFrames(env *fw.Env) string {
+	if env.Tier == "thorough" {
+		return "3"
+	}
+	return "2"
+}
+
 func main() {
+	calibrate(60)
 	corelog.SetDefault(corelog.NewNopLogger())
 	if utils.Logger != nil {
 		utils.Logger.SetOutput(io.Discard)
@@ -1267,21 +1776,28 @@ func main() {
 		DesignRef: "DESIGN.md §5 C05",
 		ModelJobs: func(env *fw.Env) []fw.TLCJob {
 			all := `{"shortHeader", "emptyNoLen", "unboundedInflate"}`
+			showResult = make(chan error, 1)
+			go func() { showResult <- showDeviations(env) }()
 			frames := "2" // 3 frames are 5.1M states (7 min under load): the 3-frame streams are covered by simulation instead
 			return []fw.TLCJob{
 				{Name: "mc:hostile-contract", Module: "Framing", Cfg: "Framing_hostile.cfg", Consts: map[string]string{"DEV": "{}", "ALLOC": "AllocBound"}},
 				{Name: "mc:hostile-as-found", Module: "Framing", Cfg: "Framing_hostile.cfg", Consts: map[string]string{"DEV": all, "ALLOC": "AllocBoundOrDev"}},
 				{Name: "mc:streams", Module: "Framing", Cfg: "Framing_stream.cfg", Heap: "12g",
 					Consts: map[string]string{"FRAMES": frames, "EMIT": "FALSE", "SPEC": "SPECIFICATION Spec\nPROPERTY Termination"}},
+				// what a call leaves behind (buffer pool, read lock, request / connection tables), the code as it is
+				{Name: "mc:resources", Module: "FramingRes", Cfg: "FramingRes_mc.cfg", Workers: 4, Consts: map[string]string{"FRAMES": resFrames(env)}},
 			}
 		},
 		GenJobs: func(env *fw.Env) []fw.TLCJob {
-			gen := map[string]string{"FRAMES": "2", "EMIT": "TRUE", "SPEC": "INIT Init\nNEXT Next"}
 			jobs := []fw.TLCJob{{Name: "gen:hostile-frames", Module: "Framing", Cfg: "Framing_genx.cfg", Workers: 4},
-				{Name: "gen:streams", Module: "Framing", Cfg: "Framing_stream.cfg", Consts: gen, Workers: 8}}
+				{Name: "gen:resources", Module: "FramingRes", Cfg: "FramingRes_gen.cfg", Consts: map[string]string{"FRAMES": "2"}, Workers: 8}}
 			if env.Tier == "thorough" {
-				jobs = append(jobs, fw.TLCJob{Name: "sim:streams3", Module: "Framing", Cfg: "Framing_stream.cfg", Workers: 4,
-					Consts: map[string]string{"FRAMES": "3", "EMIT": "TRUE", "SPEC": "INIT Init\nNEXT Next"}, Simulate: "num=1500", Depth: 60, Seed: env.Seed})
+				gen := map[string]string{"FRAMES": "2", "EMIT": "TRUE", "SPEC": "INIT Init\nNEXT Next"}
+				jobs = append(jobs, fw.TLCJob{Name: "gen:streams", Module: "Framing", Cfg: "Framing_stream.cfg", Consts: gen, Workers: 8},
+					fw.TLCJob{Name: "sim:streams3", Module: "Framing", Cfg: "Framing_stream.cfg", Workers: 4,
+						Consts: map[string]string{"FRAMES": "3", "EMIT": "TRUE", "SPEC": "INIT Init\nNEXT Next"}, Simulate: "num=600", Depth: 60, Seed: env.Seed},
+					fw.TLCJob{Name: "sim:resources3", Module: "FramingRes", Cfg: "FramingRes_gen.cfg", Workers: 4,
+						Consts: map[string]string{"FRAMES": "3"}, Simulate: "num=600", Depth: 120, Seed: env.Seed})
 			}
 			return jobs
 		},
@@ -1290,6 +1806,9 @@ func main() {
 			h := hashOf(raw)
 			keep := func(per1000 int64) bool { // seeded, deterministic sampling of one source
 				return (h/7+env.Seed*7919)%1000 < per1000
+			}
+			if src == "gen:resources" || src == "sim:resources3" {
+				return expandRes(env, raw, h, keep)
 			}
 			if src != "gen:hostile-frames" {
 				return expandStream(env, raw, h, keep)
@@ -1323,12 +1842,14 @@ func main() {
 		JudgeCfg:    "FramingTraceX.cfg",
 		SelfTest:    selfTest,
 		NonTrivial:  func(t *fw.Trace) bool { return len(t.Events) >= 2 },
-		Rule:        "one case per hostile frame class of spec/Framing.tla (type/flag class x length-field truncation x declared-size class {0,small,16MiB,16MiB+1,2^32-1} x body availability x gzip class {ratio~1, small->just-within-limit, bomb 10x limit, bomb with forged ISIZE, bomb member + tiny member, corrupt, truncated} x payload class {empty, not JSON, JSON of another shape, well-formed, huge, 1-5 byte marker prefixes (BOMs, truncated UTF-8, gzip magic, JSON openers), null, scalar, {}, array, too deeply nested, duplicate keys, out-of-range numbers, invalid UTF-8}), concretised with seeded filler, plus seeded random byte strings and single-bit mutants of valid packets; each fed to the real ReadPacket and, when it decodes, to the real SessionManager.HandlePacket on a fresh connection; non-trivial = ReadPacket was reached",
+		Rule: "one case per hostile frame class of spec/Framing.tla (type/flag class x length-field truncation x declared-size class {0,small,16MiB,16MiB+1,2^32-1} x body availability x gzip class {ratio~1, small->just-within-limit, bomb 10x limit, bomb with forged ISIZE, bomb member + tiny member, corrupt, truncated} x payload class {empty, not JSON, JSON of another shape, well-formed, huge, 1-5 byte marker prefixes (BOMs, truncated UTF-8, gzip magic, JSON openers), null, scalar, {}, array, too deeply nested, duplicate keys, out-of-range numbers, invalid UTF-8}), concretised with seeded filler, plus seeded random byte strings and single-bit mutants of valid packets; each fed to the real ReadPacket and, when it decodes, to the real SessionManager.HandlePacket on a fresh connection. " +
+			"Histories (spec/FramingRes.tla): every sequence of two frames (53 classes: body size on the wire zero / 1-3 bytes / tens of bytes / 2-4 KiB / 4-5.5 KiB / 7-8 KiB x compressed x encrypted flag x decodable or not x command handler class; frames that end in an oversize declaration or inside the length field / body) on one connection or on two successive connections, every ReadPacket call on either of two reader threads (goroutines that keep their P), followed on every connection by ReadPacket, ReadExact, ReadAvailable, ReadPacket at the end of the stream: all behaviours that end in a long probe frame or repeat a frame, a seeded sample of the rest; a repeated frame additionally as a flood of N copies on one connection or on N connections; non-trivial = ReadPacket was reached",
 		Assumptions: []string{
 			"allocation = runtime.MemStats.TotalAlloc delta around the call (process-wide; one call at a time, GC and background tickers covered by the 1 MiB slack); bound for ReadPacket 6 x 16 MiB + 1 MiB (DESIGN.md Appendix B), for HandlePacket 12 x 16 MiB + 1 MiB (spec/FramingTrace.tla)",
-			"hang = the call has not returned after 40 s (largest legitimate case measured: well under 2 s)",
-			"memory retained after the call is not measured; handlers' goroutines (config push) run outside the measured window",
-			"the server is assembled in-process from the real components on memory storage, without listeners; it is rebuilt every 150 cases"},
+			"hang = the call has not returned after 40 s (single frames; largest legitimate case measured: well under 2 s) / the calls of one connection of a stream have not all returned after 20 s (legitimate: milliseconds) / a flood after 120 s; when a watchdog expires while a CPU probe shows this process running >= 4x slower than unloaded, the wait is extended by three more periods and a call that returns then is not a hang",
+			"retained memory = live heap + goroutine stacks (HeapAlloc + StackInuse after two GCs, handler goroutines given up to 1 s to end) after the second half of a flood minus the same after the first half; judged only for floods in which every packet was refused; slack 96 KiB for 1500 (one connection: 750 connections) packets",
+			"reader threads are two goroutines that take turns and busy-wait in between, so each keeps its P and its sync.Pool private slot; which P a goroutine runs on is not controlled beyond that",
+			"the server is assembled in-process from the real components on memory storage, without listeners (connections = SessionManager.AcceptConnection on an in-memory reader ... CloseConnection); it is rebuilt every 150 cases"},
 		TrustedBase: []string{"TLC", "spec/FramingTrace.tla as the reading of C05", "class -> bytes concretisation and MemStats measurement in drivers/c05"},
 	})
 }
